@@ -602,8 +602,10 @@ func init() {
 	})
 	vx("JwtOutcome", func(ex *Exec, fr *Frame, a []Value, s ssa.Instruction) Value { return ex.tt.Str(ex.W.jwtOutcome) })
 	intercepts[cur+"Encode"] = func(ex *Exec, fr *Frame, a []Value, s ssa.Instruction) Value {
-		ex.H.noteStub("jwt cursor: Encode returns an opaque token")
-		return &TupleV{vs: []Value{ex.input("cursor.token", "string", SString), nilErr()}}
+		ex.H.noteStub("jwt cursor: Encode returns an opaque, non-empty token")
+		tok := ex.input("cursor.token", "string", SString)
+		ex.addPC(ex.tt.Not(ex.tt.Eq(tok, ex.tt.Str(""))))
+		return &TupleV{vs: []Value{tok, nilErr()}}
 	}
 	intercepts["google.golang.org/grpc/status.Error"] = func(ex *Exec, fr *Frame, a []Value, s ssa.Instruction) Value {
 		ex.nobj++
@@ -948,6 +950,30 @@ func init() {
 }
 
 func init() {
+	// database/sql.Open (contract): opens lazily and never fails for a registered driver; the driver name and the
+	// data source name are recorded, the handle is the symbolic database of that backend
+	intercepts["database/sql.Open"] = func(ex *Exec, fr *Frame, a []Value, s ssa.Instruction) Value {
+		ex.H.noteStub("database/sql.Open: records driver and data source name, returns the symbolic database handle")
+		w := ex.W
+		drv, dsn := a[0].(*Term), a[1].(*Term)
+		w.sqlOpens = append(w.sqlOpens, [2]*Term{drv, dsn})
+		backend := "sqlite"
+		if d, ok := drv.StrVal(); ok && d == "postgres" {
+			backend = "postgres"
+		}
+		w.setBackend(ex, backend)
+		for k := range w.slots {
+			if v, ok := ex.H.opts["slots."+k]; ok {
+				w.slots[k] = v
+			}
+		}
+		w.db = ex.EmptyDB(w.schema, w.slots)
+		w.sqlDBObj = ex.opaquePtr("sql.DB", nil)
+		return &TupleV{vs: []Value{w.sqlDBObj, nilErr()}}
+	}
+	vx("SqlOpens", func(ex *Exec, fr *Frame, a []Value, s ssa.Instruction) Value { return ex.tt.BV(uint64(len(ex.W.sqlOpens)), 64) })
+	vx("SqlOpenDriver", func(ex *Exec, fr *Frame, a []Value, s ssa.Instruction) Value { return ex.W.sqlOpens[ex.concreteInt(a[0], "i")][0] })
+	vx("SqlOpenDSN", func(ex *Exec, fr *Frame, a []Value, s ssa.Instruction) Value { return ex.W.sqlOpens[ex.concreteInt(a[0], "i")][1] })
 	vx("FilesRemoved", func(ex *Exec, fr *Frame, a []Value, s ssa.Instruction) Value { return ex.tt.BV(uint64(len(ex.W.removed)), 64) })
 	vx("FileRemoved", func(ex *Exec, fr *Frame, a []Value, s ssa.Instruction) Value { return ex.W.removed[ex.concreteInt(a[0], "index")] })
 	vx("TablesDropped", func(ex *Exec, fr *Frame, a []Value, s ssa.Instruction) Value { return ex.tt.BV(uint64(ex.W.tablesDropped), 64) })
